@@ -445,6 +445,80 @@ def _redef_cycle_child(root, store):
     return obs
 
 
+SAMENAME_SRC = """import sys
+import twosigma.memento as m
+
+@m.memento_function
+def A(x=1):
+    return ['A']
+
+@m.memento_function
+def B(x=1):
+    return ['B']
+
+@m.memento_function
+def C(x=1):
+    return ['C']
+
+class Reader:
+    @staticmethod
+    def build(x):
+        return A(x)
+
+class Writer:
+    @staticmethod
+    def build(x):
+        return B(x)
+
+def build(x):
+    return C(x)
+
+@m.memento_function
+def M(x=1):
+    return ['M', Reader.build(x), Writer.build(x), build(x)]
+"""
+
+
+def _samename_child(root, store):
+    import importlib
+    import sys
+
+    farm.set_env(store)
+    os.makedirs(os.path.join(root, "vfs"))
+    open(os.path.join(root, "vfs", "__init__.py"), "w").close()
+    open(os.path.join(root, "vfs", "a.py"), "w").write(SAMENAME_SRC)
+    sys.path.insert(0, root)
+    a = importlib.import_module("vfs.a")
+    dg = a.M.dependencies()
+    o = {"trans": sorted(x.qualified_name_without_version.split(":")[-1] for x in dg.transitive_memento_fn_dependencies())}
+    try:
+        o["call"] = a.M(1)
+    except Exception as e:
+        o["call"] = "EXC:%s" % type(e).__name__
+    return o
+
+
+def samename_case(_):
+    """Plain helpers that share their bare name (two static methods `build` of different classes and a module-level `build`),
+    each leading to another memento function: all three are in the caller's closure and the call goes through."""
+    top = scratch_dir("c14s")
+    out = {"evaluations": 1, "states": 1, "transitions": 2, "traces": 1, "violations": [], "outcomes": ["same-name-helpers"]}
+    try:
+        try:
+            o = farm.fork_call(_samename_child, top, os.path.join(top, "store"))
+        except farm.ChildFailed as e:
+            raise HarnessError("same-name child failed: %s" % e)
+        want = {"trans": ["A", "B", "C"], "call": ["M", ["A"], ["B"], ["C"]]}
+        if o != want:
+            diff = sorted(x for x in want if o.get(x) != want[x])
+            out["violations"].append(("same-name-helpers|differs:%s" % "+".join(diff),
+                                      "M calls Reader.build -> A, Writer.build -> B, build -> C: observed %s, the reference graph gives %s" % ({x: o.get(x) for x in diff}, {x: want[x] for x in diff}),
+                                      {"samename": True}))
+    finally:
+        rm(top)
+    return out
+
+
 def redef_cycle_case(_):
     top = scratch_dir("c14c")
     out = {"evaluations": 1, "states": 2, "transitions": 2, "traces": 1, "violations": [], "outcomes": ["redef-cycle"]}
@@ -581,7 +655,7 @@ def run(ctx):
     rb = [(E1, E1, "explicit-same-version"), (E1, E2, "explicit-different-versions"), (AUTO, AUTO, "auto"), (AUTO, E1, "auto-and-explicit")]
     rb += [(a_, b_, lab, dm, rf) for (a_, b_, lab) in rb[:4] for dm in (AUTO, E1) for rf in ("t", "load") if (dm, rf) != (AUTO, "t")]
     ctx.merge(pmap(rebind_case, rb, chunksize=1))
-    ctx.merge([redef_cycle_case(None)])
+    ctx.merge([redef_cycle_case(None), samename_case(None)])
     # the run-time check decides by the calling frame: it must be the frame of the calling THREAD
     cs = []
     for be in ("mem",) if not thorough else ("mem", "fs+cache-all"):
@@ -601,6 +675,12 @@ def replay(ctx, art):
     a = art["artefact"]
     if "scn" in a:
         return c09.replay_concurrent("C14", art)
+    if "samename" in a:
+        r = samename_case(None)
+        for v in r["violations"]:
+            print(v[0], "\n", v[1])
+        print("REPLAY property=C14 result=%s" % bool(r["violations"]))
+        return 1 if r["violations"] else 0
     if "redef_cycle" in a:
         r = redef_cycle_case(None)
         for v in r["violations"]:
